@@ -220,7 +220,16 @@ def runRwio (inp : List UInt8) (ns : List Nat) (sends : List (List Nat)) : Strin
     | _ => "bad")
   String.intercalate " " (go ns inp [] ++ tx)
 
+def b01 (b : Bool) : String := if b then "1" else "0"
+
 def handle : List String → String
+  | ["peerhs", o, i, onet, inet, pings] =>
+    match pings.toNat? with
+    | some pings =>
+      let r := Spec.peerNegotiation (o == "1") (i == "1") (onet == inet) pings
+      "in=" ++ b01 r.inVerack ++ ",v2:" ++ b01 r.inV2 ++ " out=" ++ b01 r.outVerack ++ ",v2:" ++ b01 r.outV2 ++
+        " pongs=" ++ toString r.pongs ++ " downgrade=" ++ b01 r.downgrade
+    | none => "bad-op"
   | ["rwio", _chunk, inp, ns, sends] =>
     match hexToList? inp, parseNats? ns ",", (if sends == "-" then some [] else (sends.splitOn ",").mapM (parseNats? · ":")) with
     | some inp, some ns, some sends => runRwio inp ns sends
